@@ -1519,15 +1519,50 @@ func packedPairKey(w *World, f *ssa.Function, ap *ssa.Call, pair []ssa.Value) st
 			return
 		}
 		b, isB := resolve(lk.Index).(*ssa.BinOp)
+		var via *ssa.Call
 		if !isB {
-			return
+			// the same packing inside a private helper: key := pack(a, b)
+			hc, isC := resolve(lk.Index).(*ssa.Call)
+			if !isC || calleeOf(hc) == nil || !w.InModule(calleeOf(hc)) || calleeOf(hc).Blocks == nil {
+				return
+			}
+			for _, ret := range returnsOf(calleeOf(hc)) {
+				if len(ret.Results) == 1 {
+					if hb, ok := resolve(ret.Results[0]).(*ssa.BinOp); ok {
+						b, via = hb, hc
+					}
+				}
+			}
+			if b == nil {
+				return
+			}
 		}
 		switch b.Op {
 		case token.OR, token.ADD, token.XOR, token.SHL, token.MUL:
 		default:
 			return
 		}
-		if !(dependsOn(w, b, resolve(pair[0]), 0, map[ssa.Value]bool{}) && dependsOn(w, b, resolve(pair[1]), 0, map[ssa.Value]bool{})) {
+		if via != nil {
+			g := calleeOf(via)
+			np := 0
+			for _, p := range g.Params {
+				if dependsOn(w, b, p, 0, map[ssa.Value]bool{}) {
+					np++
+				}
+			}
+			d0, d1 := false, false
+			for _, a := range via.Call.Args {
+				if dependsOn(w, a, resolve(pair[0]), 0, map[ssa.Value]bool{}) {
+					d0 = true
+				}
+				if dependsOn(w, a, resolve(pair[1]), 0, map[ssa.Value]bool{}) {
+					d1 = true
+				}
+			}
+			if np < 2 || !d0 || !d1 {
+				return
+			}
+		} else if !(dependsOn(w, b, resolve(pair[0]), 0, map[ssa.Value]bool{}) && dependsOn(w, b, resolve(pair[1]), 0, map[ssa.Value]bool{})) {
 			return
 		}
 		// the lookup decides a branch that dominates the append
